@@ -360,6 +360,9 @@ func impl(sti any, f []string) string {
 	case "reset":
 		st.reset()
 		return "ok"
+	case "extb":
+		st.ev.ExtendBuiltin(eval.BuildNs().AddVar(common.Unhex(f[1]), vars.FromInit("b")))
+		return "ok"
 	case "eval":
 		src := common.Unhex(f[1])
 		o := &obs{src: src}
